@@ -70,6 +70,14 @@ pub fn c13(tier: &str, seed: u64) -> Vec<Case> {
             names.push(vec![b"foobar".to_vec(), b"local".to_vec()]);
             names.push(vec![b"bar".to_vec(), b"local".to_vec()]);
         }
+        if it % 5 == 2 {
+            // names that differ only in octets that are not UTF-8 (Latin-1 on the wire): different names, whatever their text looks like
+            names.push(vec![b"caf\xE9".to_vec(), b"local".to_vec()]);
+            names.push(vec![b"caf\xE8".to_vec(), b"local".to_vec()]);
+            names.push(vec![b"caf\xFF\xFE".to_vec(), b"local".to_vec()]);
+            names.push(vec!["caf\u{e9}".as_bytes().to_vec(), b"local".to_vec()]);
+            names.push(vec!["caf\u{fffd}".as_bytes().to_vec(), b"local".to_vec()]);
+        }
         let mut ops: Vec<Op> = vec![];
         let mut pool: Vec<ResourceRecord<'static>> = vec![];
         for _ in 0..r.range(0, if it % 10 == 0 { 9 } else { 4 }) {
@@ -80,11 +88,23 @@ pub fn c13(tier: &str, seed: u64) -> Vec<Case> {
         }
         // the query
         let mut q = Packet::new_query(r.next() as u16);
-        for _ in 0..r.range(0, 2) {
+        // mostly none, one or two questions; now and then a handful, or dozens (a browser asking for every type it knows)
+        let nq = match r.below(14) { 0 => r.range(3, 12), 1 if it % 3 == 0 => r.range(13, 40), _ => r.range(0, 2) };
+        for _ in 0..nq {
             let qt = match r.below(13) { 12 => QTYPE::TYPE(TYPE::NULL), 10 => *r.pick(&[QTYPE::AXFR, QTYPE::IXFR, QTYPE::MAILA]), 11 => QTYPE::TYPE(TYPE::MX), 0 | 7 => QTYPE::ANY, 8 => QTYPE::TYPE(TYPE::CNAME), 9 => QTYPE::TYPE(TYPE::NS), 1 => QTYPE::MAILB, 2 => QTYPE::TYPE(TYPE::SRV), 3 => QTYPE::TYPE(TYPE::AAAA), 4 => QTYPE::TYPE(TYPE::PTR), 5 => QTYPE::TYPE(TYPE::TXT), _ => QTYPE::TYPE(TYPE::A) };
             let qc = match r.below(6) { 0 => QCLASS::ANY, 1 => QCLASS::CLASS(CLASS::CH), _ => QCLASS::CLASS(CLASS::IN) };
             let qn = if !pool.is_empty() && r.chance(2, 3) { r.pick(&pool).name.clone() } else { mk_name(&r.pick(&names)[..]) };
             q.questions.push(Question::new(qn, qt, qc, r.chance(1, 4)));
+        }
+        // queries carry more than questions: known answers (RFC 6762 7.1), probe records in the authority section, an
+        // OPT or the querier's own records in the additional section. Whatever the sender lists, the reply holds every
+        // matching registered record
+        if !pool.is_empty() && r.chance(1, 3) {
+            for _ in 0..r.range(1, 3) {
+                let mut x = r.pick(&pool).clone();
+                if r.chance(1, 2) { x.ttl = *r.pick(&[0u32, 1, 60, 4500]); }
+                match r.below(4) { 0 => q.name_servers.push(x), 1 => q.additional_records.push(x), _ => q.answers.push(x) }
+            }
         }
         // run the real store; the abstract registry for the oracle is a plain vector
         let mut mgr = ResourceRecordManager::new();
@@ -174,7 +194,15 @@ fn history(seed: u64, steps: usize) -> Vec<Case> {
     let names = [vec![b"x".to_vec(), b"local".to_vec()], vec![b"y".to_vec(), b"x".to_vec(), b"local".to_vec()], vec![b"z".to_vec(), b"local".to_vec()]];
     // three records on three names and a fourth that shares its owner with the first
     let rec_names = [names[0].clone(), names[1].clone(), names[2].clone(), names[0].clone()];
-    let recs: Vec<ResourceRecord<'static>> = rec_names.iter().enumerate().map(|(i, n)| ResourceRecord::new(mk_name(n), CLASS::IN, 0, RData::A(A { address: i as u32 }))).collect();
+    // every second history holds address records only; the others a PTR, an SRV and two address records (shared and unique
+    // record types alike live for their TTL, or for one second when the cache-flush bit is set)
+    let mixed = seed % 2 == 1;
+    let recs: Vec<ResourceRecord<'static>> = rec_names.iter().enumerate().map(|(i, n)| ResourceRecord::new(mk_name(n), CLASS::IN, 0, match (mixed, i) {
+        (true, 1) => RData::PTR(PTR(mk_name(&[b"inst".to_vec(), b"y".to_vec(), b"x".to_vec(), b"local".to_vec()]))),
+        (true, 2) => RData::SRV(SRV { priority: 0, weight: 0, port: 80, target: mk_name(&[b"z".to_vec(), b"local".to_vec()]) }),
+        _ => RData::A(A { address: i as u32 }),
+    })).collect();
+    let rt = tokio::runtime::Builder::new_current_thread().build().unwrap();
     let svc_local = mk_name(&[b"local".to_vec()]);
     let own_local = mk_name(&[b"own".to_vec(), b"local".to_vec()]);
     let mut mgr: ResourceRecordManager<'static> = ResourceRecordManager::new();
@@ -209,11 +237,20 @@ fn history(seed: u64, steps: usize) -> Vec<Case> {
                         let parsed = Packet::parse(&wire).unwrap();
                         let ptxt = text::packet(&parsed);
                         // with and without an on_discovery channel (its receiver kept alive): what is cached is the same
-                        let (dtx, _drx) = std::sync::mpsc::channel();
-                        let mut ch = if r.chance(1, 2) { Some(dtx) } else { None };
-                        t0 = Instant::now();
-                        simple_mdns::verif::sync_add_response_to_resources(parsed, &svc_local, &own_local, &mut mgr, &mut ch);
-                        t1 = Instant::now();
+                        // ... through the sync listener's ingestion or the tokio listener's
+                        if r.chance(2, 3) {
+                            let (dtx, _drx) = std::sync::mpsc::channel();
+                            let mut ch = if r.chance(1, 2) { Some(dtx) } else { None };
+                            t0 = Instant::now();
+                            simple_mdns::verif::sync_add_response_to_resources(parsed, &svc_local, &own_local, &mut mgr, &mut ch);
+                            t1 = Instant::now();
+                        } else {
+                            let (dtx, _drx) = tokio::sync::mpsc::channel::<simple_mdns::InstanceInformation>(16);
+                            let mut ch = if r.chance(1, 2) { Some(dtx) } else { None };
+                            t0 = Instant::now();
+                            rt.block_on(simple_mdns::verif::async_add_response_to_resources(parsed, &svc_local, &own_local, &mut mgr, &mut ch));
+                            t1 = Instant::now();
+                        }
                         evs.push(Ev { line: format!("I {{}} {} {} {}", text::name(&svc_local), text::name(&own_local), ptxt), lo: ms(t0), hi: ms(t1) });
                     } else {
                         t0 = Instant::now();
@@ -269,7 +306,8 @@ fn history(seed: u64, steps: usize) -> Vec<Case> {
             for i in 0..4 {
                 let rname = &rec_names[i];
                 let in_scope = if sub { rname.len() >= qname.len() && rname[rname.len() - qname.len()..] == qname[..] } else { *rname == qname };
-                let present = got.iter().any(|g| g.contains(&format!("F 1 1 i {}", i)));
+                let rd_text = text::rdata(&recs[i].rdata);
+                let present = got.iter().any(|g| g.ends_with(&rd_text) && g.starts_with(&text::name(&recs[i].name)));
                 let verdict: Option<bool> = match st[i] {
                     St::No => Some(false),
                     St::Auth => Some(auth && in_scope),
